@@ -8,6 +8,7 @@ move_mol_atom, find_atom_random_displ, rotation_matrix); a reference model of th
 bookkeeping is advanced from the observed events (C09); chi2 evaluations, single-atom moves
 and rotation matrices are checked in situ (C08, C07, C17); the end state is checked for C06."""
 import math
+import os
 import random as _random
 import re
 
@@ -1065,6 +1066,19 @@ def execute(trace, ctx):
         Alignment.STEPS_FACTOR, Alignment.SIGMA_SCALE = trace["steps_factor"], trace["sigma_scale"]
         out_start = len(ctx.stdout.getvalue())
         outcome = "ok"
+        tty_swap = None
+        if trace["np_seed"] % 5 == 2 and monitored:
+            # the search prints progress: in the monitored execution standard output says it is a terminal (the second,
+            # unmonitored execution keeps the plain capture -- the outcome must not depend on where the progress goes)
+            import sys as _sys
+            import io as _io
+
+            class _Tty(_io.StringIO):
+                def isatty(self):
+                    return True
+            tty_swap = _sys.stdout
+            _sys.stdout = _Tty()
+            ctx.probe("stdout_is_a_terminal")
         try:
             with seam:
                 if monitored:
@@ -1077,6 +1091,9 @@ def execute(trace, ctx):
                     outcome = _drive(trace, ali, restr, deform, ctx, B, info, watch)
         finally:
             Alignment.STEPS_FACTOR, Alignment.SIGMA_SCALE = old_sf, old_ss
+            if tty_swap is not None:
+                import sys as _sys
+                _sys.stdout = tty_swap
         info["stdout"] = ctx.stdout.getvalue()[out_start:]
         return ali, watch, outcome, info, (ini_s, ini_e)
 
@@ -1099,6 +1116,20 @@ def execute(trace, ctx):
     if outcome.startswith("raised"):
         return
     ctx.nontrivial = True
+    if trace["mode"] == "align" and trace["np_seed"] % 4 == 1 and len(ali.end) > 1:
+        # the overlap is written out for inspection (the documented next step after aligning): neither the molecules the
+        # Alignment holds nor the caller's may change by it
+        try:
+            before_w = (mol_snapshot(ali.start), mol_snapshot(ali.end))
+            ali.write_comparative_gro(os.path.join(ctx.tmpdir(), "compare.gro"))
+            after_w = (mol_snapshot(ali.start), mol_snapshot(ali.end))
+            dw = snapshots_equal(before_w[0], after_w[0]) or snapshots_equal(before_w[1], after_w[1])
+            if dw:
+                ctx.violate("C06", "names-or-order-changed", f"write_comparative_gro changed the {dw} of a molecule held by the Alignment")
+        except Exception as e:
+            ctx.violate("C06", "alignment-raised", f"write_comparative_gro after the alignment raised {type(e).__name__}: {e}",
+                        key="write_comparative_gro")
+        ctx.probe("comparative_gro_written")
     if trace["mode"] == "align":
         check_c06(trace, ctx, ali, ini_s, ini_e, start_fixed, tree_mobile, deform, mobile_spec)
     d = snapshots_equal(snap_us, mol_snapshot(user_start)) or snapshots_equal(snap_ue, mol_snapshot(user_end))
